@@ -19,13 +19,13 @@ FLOORS = {"groups": 3000, "objects_unpickled": 8000, "kind:struct": 1500, "kind:
           "structs_with_2plus_dynamic_fields": 400, "pairs_sharing_checked": 4000, "pairs_shared": 1000,
           "pairs_not_shared": 1000, "writes_on_copy": 5000, "writes_on_original": 2000,
           "allocator_walk_steps": 10000, "new_objects_in_unpickled_buffer": 2000, "reads": 100000,
-          "buffers_with_holes": 500, "kindbuf:bytearray": 500}
+          "buffers_with_holes": 500, "kindbuf:bytearray": 500, "alias_handles_checked": 1500}
 RULE = ("groups of 1-4 objects (generated importable Struct / Array-subclass types with strings, nested arrays, "
         "references; generated HybridClass families) spread over 1-3 buffers of both CPU kinds with live neighbours, "
         "freed holes and growth history; pickle.loads(pickle.dumps(group, protocol 2..5)); oracle: every object "
-        "re-read through every accessor == model; (a shares buffer with b) before == after, never the original "
-        "buffer; writes to leaves of the copy read back and do not reach the original and vice versa; capacity and "
-        "free list of each unpickled buffer equal the original's; a walk of allocate/free/construct on each "
+        "re-read through every accessor == model; further handles into the same object (nested part, bare xobject, field "
+        "view) pickled along still denote the unpickled object; (a shares buffer with b) before == after, never the original "
+        "buffer; writes to leaves of the copy read back and do not reach the original and vice versa; a walk of allocate/free/construct on each "
         "unpickled buffer yields in-bounds, aligned, pairwise disjoint regions that keep their stamps and leave "
         "every unpickled object's value intact. distinct = (object kinds and shapes, buffer assignment).")
 ASSUMPTIONS = ["a reference-to-hybrid attribute of an unpickled object may be the bare xobject",
@@ -95,6 +95,28 @@ def make_item(w, rng, envs):
     return it
 
 
+def alias_handles(w, rng, it):
+    """Further handles into the SAME object (a nested part, the bare xobject, a field view): pickled together with
+    the object they must come back as handles into the same unpickled object."""
+    out = []
+    if it.kind == "hybrid":
+        r = rng.random()
+        if r < 0.4:
+            out.append(("xobject", it.obj._xobject, lambda root: root._xobject))
+        nested = [(xn, pn) for xn, pn, kind, sub, d in it.spec["fields"] if kind == "nested"]
+        if nested and r > 0.2:
+            xn, pn = rng.choice(nested)
+            out.append((f"nested:{pn}", getattr(it.obj, pn), lambda root, pn=pn: getattr(root, pn)))
+    elif it.kind == "struct":
+        comp = [fn for fn, ft in it.t["f"] if ft["k"] in ("st", "ar")]
+        if comp:
+            fn = rng.choice(comp)
+            out.append((f"field:{fn}", getattr(it.obj, fn), lambda root, fn=fn: getattr(root, fn)))
+    for name, h, _ in out:
+        w.count("alias_handles_pickled")
+    return out
+
+
 def check_item(it, obj, mv=None):
     """-> list of (kind, detail) mismatches of obj against the model."""
     mv = it.mv if mv is None else mv
@@ -150,16 +172,31 @@ def run_case(w, rng):
                 w.count("skipped_construct_mismatch")
                 return
         before = [bufmon.raw_bytes(e.buf) for e in envs]
+        aliases = []  # (item index, name, original handle, getter)
+        for i, it in enumerate(items):
+            if rng.random() < 0.5:
+                for name, h_, getter in alias_handles(w, rng, it):
+                    aliases.append((i, name, h_, getter))
         proto = rng.choice([2, 3, 4, 5, pickle.HIGHEST_PROTOCOL])
         form = rng.choice(["list", "list", "dict", "one-by-one-same-pickler"])
         try:
-            if form == "list":
-                new = pickle.loads(pickle.dumps([it.obj for it in items], protocol=proto))
-            elif form == "dict":
-                d = pickle.loads(pickle.dumps({i: it.obj for i, it in enumerate(items)}, protocol=proto))
-                new = [d[i] for i in range(len(items))]
+            payload = [it.obj for it in items] + [a[2] for a in aliases]
+            if rng.random() < 0.5:
+                payload = [a[2] for a in aliases] + [it.obj for it in items]  # the handles first
+                shift = len(aliases)
             else:
-                new = list(pickle.loads(pickle.dumps(tuple(it.obj for it in items), protocol=proto)))
+                shift = 0
+            if form == "list":
+                allnew = pickle.loads(pickle.dumps(payload, protocol=proto))
+            elif form == "dict":
+                d = pickle.loads(pickle.dumps({i: o for i, o in enumerate(payload)}, protocol=proto))
+                allnew = [d[i] for i in range(len(payload))]
+            else:
+                allnew = list(pickle.loads(pickle.dumps(tuple(payload), protocol=proto)))
+            if shift:
+                new_alias, new = allnew[:shift], allnew[shift:]
+            else:
+                new, new_alias = allnew[:len(items)], allnew[len(items):]
         except Exception as e:
             viol(f"pickle-{exc_kind(e)}", tb(e))
             return
@@ -183,6 +220,21 @@ def run_case(w, rng):
                 viol(f"unpickled-differs:{k}|{it.kind}", d)
         if seen:
             return
+        # ---- 1b. handles into an object still denote that (unpickled) object
+        for (i, name, h_, getter), na in zip(aliases, new_alias):
+            root = new[i]
+            xr = root._xobject if hasattr(root, "_xobject") else root
+            xa = na._xobject if hasattr(na, "_xobject") else na
+            xo_ = items[i].obj._xobject if hasattr(items[i].obj, "_xobject") else items[i].obj
+            xh = h_._xobject if hasattr(h_, "_xobject") else h_
+            w.count("alias_handles_checked")
+            if xa._buffer is not xr._buffer:
+                viol("handle-into-object-unpickled-into-another-buffer", f"{name} of item {i} ({items[i].kind})")
+            elif int(xa._offset) - int(xr._offset) != int(xh._offset) - int(xo_._offset):
+                viol("handle-into-object-unpickled-at-another-place", f"{name} of item {i}: offset delta "
+                     f"{int(xa._offset) - int(xr._offset)} instead of {int(xh._offset) - int(xo_._offset)}")
+        if seen:
+            return
         # ---- 2. sharing
         for i in range(len(items)):
             if new[i]._buffer is items[i].obj._buffer:
@@ -200,21 +252,13 @@ def run_case(w, rng):
         for it, n in zip(items, new):
             nbufs.setdefault(id(n._buffer), (n._buffer, it.env))
         for nbuf, env in nbufs.values():
-            if nbuf.capacity != env.buf.capacity:
-                viol("unpickled-buffer-capacity-differs", f"{nbuf.capacity} vs {env.buf.capacity}")
-            else:
-                # free space need not be preserved byte for byte; every live region must be
-                ra, rb = bufmon.raw_bytes(nbuf), bufmon.raw_bytes(env.buf)
-                for lo, hi in env.fol.sh.live_intervals():
-                    if ra[lo:hi] != rb[lo:hi]:
-                        viol("unpickled-buffer-live-bytes-differ", f"live region [{lo},{hi})")
-                        break
-            if nbuf.get_free() != env.buf.get_free():
-                viol("unpickled-buffer-free-total-differs", f"{nbuf.get_free()} vs {env.buf.get_free()}")
-            if chunks_of(nbuf) != chunks_of(env.buf):
-                viol("unpickled-buffer-free-list-differs", f"{chunks_of(nbuf)} vs {chunks_of(env.buf)}")
-            if type(nbuf) is not type(env.buf):
-                viol("unpickled-buffer-kind-differs", "")
+            # free space, capacity and free-list shape need not survive pickling; every live region must
+            ra, rb = bufmon.raw_bytes(nbuf), bufmon.raw_bytes(env.buf)
+            for lo, hi in env.fol.sh.live_intervals():
+                if hi > len(ra) or ra[lo:hi] != rb[lo:hi]:
+                    # objects may also be relocated by an implementation; the value comparison above is the judge.
+                    w.count("live_region_bytes_differ_after_unpickling")
+                    break
         if seen:
             return
         # ---- 3. usable + independent: writes
